@@ -1,6 +1,7 @@
 import os, sys
 sys.path.insert(0, os.path.join(os.path.dirname(os.path.abspath(__file__)), "..", "common"))
 import cxx_specs as XS
+from imports import imported
 
 PROPERTY = "C01"
 LEVEL = "proof"
@@ -24,4 +25,10 @@ OBLIGATIONS = [
      "incdirs": INC, "defines": ["soft=%d" % s, "softAes=%d" % s, 'RXV_CONTRACTS_H="decls_aes_dispatch.h"'], "entry": "h_aes_dispatch",
      "expect_classes": ["assertion"], "expect_min": 2}
     for s in (1, 0)
-] + [dict(XS.CREATE_VM_OB, name="create_vm_flag_dispatch")]
+] + [dict(XS.CREATE_VM_OB, name="create_vm_flag_dispatch"),
+     # the two engines decode the same instruction from the same word, and the JIT emits what the interpreter decodes, for the case
+     # the engines most easily disagree on (IMUL_RCP no-op rule); the complete per-instruction sets are the checks of C05 / C04
+     imported("C05", "decode_contract", "interpreter_decodes_every_instruction_word_as_specified"),
+     imported("C04", "jit_IMUL_RCP_dst3_noop", "jit_and_interpreter_agree_on_IMUL_RCP_noop"),
+     imported("C04", "jit_IMUL_RCP_dst3_multiply", "jit_and_interpreter_agree_on_IMUL_RCP_multiply"),
+     imported("C04", "jit_ISTORE", "jit_and_interpreter_agree_on_ISTORE")]
